@@ -277,8 +277,12 @@ func sameAsFresh(what string, got, prev, fresh []byte, r reuseRun) error {
 	}
 	if !r.Gzip {
 		if !bytes.Equal(rest, fresh) {
-			return fmt.Errorf("%s held %d bytes before the run (append=%v); the run writes %d bytes to a fresh path, but %d bytes are found%s; found %q, fresh path %q",
-				what, len(prev), r.Append, len(fresh), len(rest), tail(), abbr(string(rest)), abbr(string(fresh)))
+			after := ""
+			if r.Append {
+				after = " after the previous content"
+			}
+			return fmt.Errorf("%s held %d bytes before the run (append=%v); the run writes %d bytes to a fresh path, but %d bytes are found%s%s; found %q, fresh path %q",
+				what, len(prev), r.Append, len(fresh), len(rest), after, tail(), abbr(string(rest)), abbr(string(fresh)))
 		}
 		return nil
 	}
